@@ -50,6 +50,11 @@ class LineRun:
             if not any(txn.version is v for v in z._versions):
                 return {"what": "version pinned by an open reader was pruned", "vid": txn.version.id,
                         "retained": [v.id for v in z._versions]}
+        waited = {w.last_event for w in ws if getattr(w, "phase", None) == "waiting" and w.last_event is not None}
+        if z._write_event is not None and z._write_event not in waited:
+            return {"what": "lost wake-up: _write_event is an event no writer waits on"}
+        if any(e not in waited for e in list(z._write_waiters)):
+            return {"what": "stale event in _write_waiters: no writer waits on it (its wake-up will be lost)"}
         if not r.all_done() and not r.enabled_tids():
             return {"what": "deadlock: unfinished threads and no step enabled",
                     "gates": [repr(w.gate[2:]) for w in ws if not w.done]}
@@ -83,7 +88,7 @@ class LineRun:
         return None
 
 
-def run_line_schedule(progs, kind, chooser, max_steps=20000):
+def run_line_schedule(progs, kind, chooser, max_steps=4000):
     """chooser(i, enabled tids, last tid) -> tid.  Returns (schedule, failure or None)."""
     lr = LineRun(progs, kind)
     r = lr.r
